@@ -4,6 +4,9 @@
 // compiled only under the build tag "verif").
 package subscribe
 
+// Every function under contract in this package also serves the properties that depend on the whole package.
+//@ package-props C01 C04 C05 C06 C07 C08
+
 // The per-RPC ACL: its answer for a target is recorded in the ghost pair
 // (lastChecked, lastVerdict) declared with the gRPC stubs; Send requires it.
 //@ ghost aclChecks int
